@@ -141,7 +141,7 @@ func ceditGenOpKind(r *rand.Rand, kind string) ceditOp {
 		op.S = [4]string{p, ov}
 	case "AddRetract":
 		vi := gen.Pick(r, gen.EditRetracts)
-		op.S = [4]string{vi[0], vi[1], gen.Pick(r, []string{"why", "", "two\nlines", "why", "para one\n\npara two", "a\n\nb\nc"})}
+		op.S = [4]string{vi[0], vi[1], gen.Pick(r, []string{"why", "", "two\nlines", "why", "para one\n\npara two", "a\n\nb\nc", "\nstarts after an empty line", "\n\ntwo empty lines first"})}
 	case "DropRetract":
 		vi := gen.Pick(r, gen.EditRetracts)
 		op.S = [4]string{vi[0], vi[1]}
